@@ -230,11 +230,13 @@ def annotation_map(core):
 # every value is representable in binary16 (hence in every declared function context): FPCore evaluators round the
 # arguments to the core's precision on entry, FPy never does, so only such arguments make the two comparable
 class DirectedOverflowWatch:
-    """titanfp overflows to an infinity under every rounding mode; IEEE 754 (and FPy, see C01) gives the largest finite value under
-    the directed modes.  The watch notes when an FPy run rounded an overflow to a finite value, so that the run is not compared."""
+    """titanfp does not follow IEEE 754 for an overflow under a directed rounding mode (toZero / toNegative give +inf for a positive
+    overflow, toPositive gives the largest finite value); FPy does (see C01).  The watch notes when an FPy run overflowed under a
+    directed mode, so that the run is counted and not compared."""
 
     def __init__(self, fp):
         self.cls = fp.IEEEContext
+        self.nearest = (fp.RM.RNE, fp.RM.RNA)
         self.hit = False
         self.orig = {}
 
@@ -247,7 +249,7 @@ class DirectedOverflowWatch:
             def wrapper(ctx, *a, _orig=orig, **k):
                 r = _orig(ctx, *a, **k)
                 try:
-                    if r.overflow and not r.isinf and not r.isnan:
+                    if r.overflow and ctx.rm not in watch.nearest:
                         watch.hit = True
                 except Exception:
                     pass
@@ -423,6 +425,10 @@ def shard(i: int, n: int, tier: str, seed: int) -> Result:
                             bad = True
                             break
                         res.count('agree_' + route)
+                    elif have[0] == 'exc' and have[1] == 'SyntaxError' and 'nested' in str(r1[2]):
+                        # CPython refuses more than 20 statically nested blocks; the read-back program nests one `with` per
+                        # annotation of the core.  A limit of the host, not a different meaning: counted
+                        res.count('read_back_exceeds_python_nesting_limit')
                     elif have[0] != ref[0] and ref[0] == 'ok':
                         viol(route, f'the function read back from the core raises {have[1]} where the reference returns a value', args=repr(args),
                              reference=genrun.show(ref[1]), kind='read_back_eval_raises', exception=have[1], read_back_program=gfn.format()[:2500])
